@@ -9,6 +9,7 @@ CONSTANTS
   Page = 4
   Header = 2
   NameMeta = 1
+  LongNames = {"b"}
   IndexEnd = 3
   MaxOps = 6
   MaxFile = 1000
